@@ -193,10 +193,8 @@ class GenericRun(ComputeRun):
         from .. import teams as T
         self.model, self.sizes, self.ranks, self.gamma_mode = model, (1,) * n, ranks, gamma_mode
         self.order, self.player_order = list(range(n)), {}
-        tr = T.FoldLoops()
-        S = self.S = extract.Scratch(model, transforms={extract.MODEL_FILES[model]: (tr,)})
-        S.ns.update(T.REBINDS)
-        self.loops_rewritten = list(tr.rewritten)
+        S = self.S = T.scratch(model)
+        self.loops_rewritten = list(S.loops_rewritten)
         self.tm = game.stub_tm_real(S)
         game.stub_phi_real(S)
         self.ctx = Ctx("R")
